@@ -152,7 +152,7 @@ Section Accept.
     | Lookup h, OUnit u =>
         match held_unit s h with
         | Some u0 => on 1 2 (u0 =? u) (inl s)
-        | None => on 1 0 (negb (other_holds s h u)) (on 1 2 false (inl s))
+        | None => on 1 0 (negb (other_holds s h u)) (on 5 4 false (inl s))   (* a released / expired lease is still reported *)
         end
     | Lookup h, ONone => on 1 2 (negb (holds s h)) (on 5 5 (negb (holds s h)) (inl s))
     | LookupUnit a pl, OHolder h =>
